@@ -522,6 +522,25 @@ func pickCh(r *rand.Rand, k int) uint64 {
 // resolvedOrNil: the container's current promise is nil, or a result for it exists / is being published
 func (s *sys) curSettled() bool { return s.cur < 0 || s.setCalled[s.cur] }
 
+// genAvoids: ev is applicable but gen never produces it in the current situation, because it runs into the known finding
+// D20 (the two guards of gen below: no section of a fired container awaiter that would find a pending promise, no firing
+// of the channel of a container awaiter that is past its section on a non-nil promise).  A corpus prefix replayed at the
+// head of a random history ends there.
+func (s *sys) genAvoids(ev []uint64) bool {
+	if len(ev) < 2 || (ev[0] != 5 && ev[0] != 7) || ev[1] >= uint64(len(s.c.Acts)) {
+		return false
+	}
+	a := s.c.Acts[ev[1]]
+	d := a.Data.(*adata)
+	if a.Kind != kCAwait || a.Done() {
+		return false
+	}
+	if ev[0] == 5 {
+		return s.atEntry(a) && d.fired && !d.cancelled && !s.curSettled()
+	}
+	return !d.fired && d.k != 0 && !(s.atEntry(a) || d.secCur == -1)
+}
+
 func (s *sys) gen(r *rand.Rand, maxActs, maxProms int) []uint64 {
 	var entry, exit, cancellable, fireable, known []int
 	for i, p := range s.proms {
@@ -709,6 +728,11 @@ func watchdog(id string) *time.Timer {
 	})
 }
 
+// corpusMotifs: the scheduled corpus histories (not the stress ones), used as PREFIXES of a share of the random
+// histories (a random cut of a random corpus history is replayed first, then generation continues at random from the
+// situation it reached): the corner cases that were worth writing down are then also explored in their neighbourhood.
+var corpusMotifs []hist.H
+
 func runRandom(t *testing.T, w *hist.W, h int) {
 	r := hist.Rng(h)
 	id := fmt.Sprintf("r%d", h)
@@ -716,6 +740,14 @@ func runRandom(t *testing.T, w *hist.W, h int) {
 	defer wd.Stop()
 	synctest.Test(t, func(t *testing.T) {
 		hx := r.IntN(3) == 0
+		var prefix [][]uint64
+		if len(corpusMotifs) > 0 && r.IntN(6) == 0 {
+			m := corpusMotifs[r.IntN(len(corpusMotifs))]
+			if len(m.Evs) > 0 {
+				hx = len(m.Cfg) > 0 && m.Cfg[0] == 1
+				prefix = m.Evs[:1+r.IntN(len(m.Evs))]
+			}
+		}
 		s := newSys(w, hx)
 		defer s.teardown()
 		cfg := uint64(0)
@@ -723,10 +755,31 @@ func runRandom(t *testing.T, w *hist.W, h int) {
 			cfg = 1
 		}
 		w.Begin(id, []uint64{cfg})
+		var prev []uint64
+		for _, ev := range prefix {
+			if s.genAvoids(ev) {
+				// the corpus history pins the known finding D20 from here on: random histories stay clear of it
+				break
+			}
+			out, obs, ok := s.exec(append([]uint64{}, ev...))
+			if !ok {
+				break
+			}
+			s.count(out, obs, prev)
+			prev = obs
+			w.Step(out, obs)
+			w.Flush()
+		}
+		if prefix != nil {
+			w.Count("random_with_corpus_prefix", 1)
+		}
 		steps := 10 + r.IntN(50)
 		maxActs := 4 + r.IntN(10)
 		maxProms := 1 + r.IntN(6)
-		var prev []uint64
+		if prefix != nil {
+			maxActs += len(s.c.Acts)
+			maxProms += len(s.proms)
+		}
 		for k := 0; k < steps; k++ {
 			ev := s.gen(r, maxActs, maxProms)
 			if ev == nil {
@@ -894,11 +947,13 @@ func TestPromise(t *testing.T) {
 		}
 		return
 	}
+	corpusMotifs = nil
 	for _, h := range hist.LoadCorpus(*hist.Corpus) {
 		if len(h.Evs) == 1 && len(h.Evs[0]) > 0 && h.Evs[0][0] == 20 {
 			runStress(w, h.ID, h.Evs[0], *hist.Seed)
 		} else {
 			runFixed(t, w, h.ID, h.Cfg, h.Evs)
+			corpusMotifs = append(corpusMotifs, h)
 		}
 		w.Count("corpus", 1)
 	}
